@@ -35,6 +35,9 @@ def seg_table(draw, allelic):
     chroms = [style + c[3:] for c in CHROMS[:nchrom]]
     rows = []
     palette = [-1.0, -0.4, 0.0, 0.0, 0.3, 0.58, 1.3]
+    # copy numbers are "arbitrary": occasionally a whole table sits at a huge base, where neighbouring integers differ only
+    # in their last few bits (not with allele-specific columns, whose split would no longer be meaningful)
+    cn_base = 0 if allelic else draw(st.sampled_from([0, 0, 0, 0, 100000, 10 ** 6]))
     for c in chroms:
         n = draw(st.one_of(st.integers(1, 6), st.integers(1, 30)))
         pos = draw(st.integers(0, 5000))
@@ -51,7 +54,7 @@ def seg_table(draw, allelic):
             log2 = draw(st.sampled_from(palette)) + draw(st.integers(-8, 8)) / 64.0
             w = draw(st.sampled_from([0.0, 0.25, 1.0, 3.5, 17.0]))
             row = {"chromosome": c, "start": pos, "end": pos + length, "gene": draw(st.sampled_from(["A", "B", "-", "A,B"])),
-                   "log2": log2, "probes": draw(st.integers(1, 200)), "weight": w, "cn": cn,
+                   "log2": log2, "probes": draw(st.integers(1, 200)), "weight": w, "cn": cn + cn_base,
                    "depth": draw(st.integers(0, 400)) / 4.0}
             half = draw(st.sampled_from([0.0, 0.05, 0.5]))
             if ci_kind == "pos":
